@@ -69,6 +69,9 @@ def render_models(sig, names, app):
         if ms['ut']:
             meta.append('        unique_together = %r' % (
                 [tuple(names.field(x) for x in t) for t in ms['ut']],))
+        if ms.get('it'):
+            meta.append('        index_together = %r' % (
+                [tuple(names.field(x) for x in t) for t in ms['it']],))
         if ms.get('idx'):
             parts = []
             for ix in ms['idx']:
@@ -131,7 +134,7 @@ def render_mutation(mu, names, palette=None):
     if k == 'DelM':
         return 'DeleteModel(%r)' % names.model(mu['m'])
     if k == 'Meta':
-        if mu['prop'] == 'unique_together':
+        if mu['prop'] in ('unique_together', 'index_together'):
             val = [tuple(names.field(x) for x in t) for t in mu['val']]
         else:
             val = mu['val']
